@@ -11,7 +11,7 @@ def run(ctx):
     env = vlib.scrub_env(scratch=scratch)
     deadline = ctx["deadline"] or (600 if tier == "quick" else 3000)
     res = vlib.Results()
-    for space, nsh in ((4, 16), (2, 32), (3, 32), (1, 96)):
+    for space, nsh in ((4, 16), (2, 32), (3, 32), (5, 64), (1, 96)):
         args = [["--tier", tier, "--space", space, "--shard", i, "--nshards", nsh] for i in range(nsh)]
         vlib.run_shards(exe, args, env, timeout=deadline, res=res, label="xcomp-%d" % space)
     shutil.rmtree(scratch, ignore_errors=True)
